@@ -4,8 +4,10 @@ use compute::prelude::*;
 use serde_json::{json, Value};
 use std::cell::Cell;
 
-fn rel_close(g: &[f64], e: &[f64], bits: i32) -> bool {
-    g.len() == e.len() && g.iter().zip(e).all(|(a, b)| a.is_finite() && (a - b).abs() <= 2f64.powi(-bits) * b.abs().max(1.0))
+fn rel_close(g: &[f64], e: &[f64], bits: i32) -> bool { rel_close_at(g, e, bits, 1.0) }
+/// closeness relative to the larger of |expected| and the scale `unit` of the problem
+fn rel_close_at(g: &[f64], e: &[f64], bits: i32, unit: f64) -> bool {
+    g.len() == e.len() && g.iter().zip(e).all(|(a, b)| a.is_finite() && (a - b).abs() <= 2f64.powi(-bits) * b.abs().max(unit))
 }
 
 pub fn replay(cases: &str, verdicts: &str) {
@@ -17,8 +19,14 @@ pub fn replay(cases: &str, verdicts: &str) {
         let cfg = &c["cfg"];
         let k = c["k"].as_u64().unwrap() as usize;
         let horizon = c["horizon"].as_u64().unwrap() as usize;
-        let exp = f64s(&c["x"]);
-        let x0 = f64s(&cfg["x0"]);
+      // scale equivariance (Inv_ScaleEquivariant): start, linear terms / kinks and (Adam) step size multiplied by a power of
+      // two move every iterate by that factor; replayed at 2^-130 and 2^90 for every third case
+      for sc_log2 in [0i32, -130, 90] {
+        if sc_log2 != 0 && v.cases % 3 != 0 { continue; }
+        let sc = 2f64.powi(sc_log2);
+        let scl = if sc_log2 == 0 { "" } else if sc_log2 < 0 { " tiny-scale" } else { " huge-scale" };
+        let exp: Vec<f64> = f64s(&c["x"]).iter().map(|t| t * sc).collect();
+        let x0: Vec<f64> = f64s(&cfg["x0"]).iter().map(|t| t * sc).collect();
         let converged = c["converged"].as_bool().unwrap();
         let evals = Cell::new(0usize);
         let opt = cfg["opt"].as_str().unwrap();
@@ -29,7 +37,7 @@ pub fn replay(cases: &str, verdicts: &str) {
             evals.set(0);
             let run = || -> Option<Vec<f64>> {
                 if opt == "sgd" {
-                    let (a, b, cc) = (f64s(&cfg["a"]), f64s(&cfg["b"]), num(&cfg["c"]));
+                    let (a, b, cc) = (f64s(&cfg["a"]), f64s(&cfg["b"]).iter().map(|t| t * sc).collect::<Vec<f64>>(), num(&cfg["c"]));
                     let o = SGD::new(num(&cfg["alpha"]), num(&cfg["mu"]), cfg["nesterov"].as_bool().unwrap());
                     guard(|| o.optimize(|p: &[Var], _d: &[&[f64]]| {
                         evals.set(evals.get() + 1);
@@ -39,9 +47,9 @@ pub fn replay(cases: &str, verdicts: &str) {
                         s
                     }, &x0, &[], budget).to_vec())
                 } else {
-                    let (cw, at) = (f64s(&cfg["cw"]), f64s(&cfg["at"]));
+                    let (cw, at) = (f64s(&cfg["cw"]), f64s(&cfg["at"]).iter().map(|t| t * sc).collect::<Vec<f64>>());
                     let hinge = cfg["hinge"].as_bool().unwrap_or(false);
-                    let o = Adam::new(num(&cfg["alpha"]), num(&cfg["b1"]), num(&cfg["b2"]), num(&cfg["eps"]));
+                    let o = Adam::new(num(&cfg["alpha"]) * sc, num(&cfg["b1"]), num(&cfg["b2"]), num(&cfg["eps"]));
                     guard(|| o.optimize(|p: &[Var], _d: &[&[f64]]| {
                         evals.set(evals.get() + 1);
                         // one-sided variant: c (|x - a| + (x - a)), gradient exactly zero to the left of a
@@ -56,14 +64,15 @@ pub fn replay(cases: &str, verdicts: &str) {
             let n_evals = evals.get();
             let g2 = { evals.set(0); run() };
             let class = format!("{}{} k{} {}", opt, if opt == "sgd" { format!(" {}{}", if num(&cfg["mu"]) == 0.0 { "plain" } else { "momentum" }, if cfg["nesterov"].as_bool().unwrap() { "+nesterov" } else { "" }) } else { format!(" eps{}{}{}", if num(&cfg["eps"]) == 0.0 { "=0" } else { ">0" }, if cfg["hinge"].as_bool().unwrap_or(false) { " one-sided" } else { "" }, if c["zero_grad"].as_bool().unwrap_or(false) { " zero-gradient-step" } else { "" }) },
-                                if k == 0 { "=0" } else if k == 1 { "=1" } else { ">1" }, if budget == k { "budget=k" } else { "budget>k after convergence" });
-            let ok = g.as_ref().map(|g| rel_close(g, &exp, 40)).unwrap_or(false);
-            v.check(ok, "k-th iterate", &class, &json!({"case": c, "maxsteps": budget}), json!(g.as_ref().map(|g| fjs(g))));
+                                if k == 0 { "=0" } else if k == 1 { "=1" } else { ">1" }, if budget == k { "budget=k" } else { "budget>k after convergence" }) + scl;
+            let ok = g.as_ref().map(|g| rel_close_at(g, &exp, 40, sc)).unwrap_or(false);
+            v.check(ok, "k-th iterate", &class, &json!({"case": c, "maxsteps": budget, "scale_log2": sc_log2}), json!(g.as_ref().map(|g| fjs(g))));
             // one objective evaluation per step actually taken: stops early only once nothing changed
             v.check(n_evals == k, "objective evaluations", &class, &json!({"case": c, "maxsteps": budget}), json!({"evaluations": n_evals, "steps_in_spec": k}));
             let det = match (&g, &g2) { (Some(a), Some(b)) => a.iter().zip(b).all(|(x, y)| x.to_bits() == y.to_bits()), _ => false };
             v.check(det, "deterministic", &class, &json!({"case": c, "maxsteps": budget}), json!(null));
         }
+      }
     });
     v.finish();
 }
@@ -110,44 +119,61 @@ pub fn record(seed: u64, nev: usize, out: &str) {
     let mut t = TraceOut::new(out);
     for e in 0..nev {
         let n = rng.range(5, 60) as usize;
-        let kind = ["exponential", "logistic", "linear-short-window"][e % 3];
-        let x: Vec<f64> = (0..n).map(|i| match kind { "linear-short-window" => 0.05 + 0.3 * i as f64 / n as f64, _ => -2.0 + 4.0 * i as f64 / n as f64 }).collect();
-        let truth = [rng.range(-15, 15) as f64 / 10.0, rng.range(2, 15) as f64 / 10.0, rng.range(-10, 10) as f64 / 10.0];
+        let kind = ["exponential", "logistic", "linear-short-window", "logistic-growth"][e % 4];
+        let x: Vec<f64> = (0..n).map(|i| match kind { "linear-short-window" => 0.05 + 0.3 * i as f64 / n as f64, "logistic-growth" => 20.0 * i as f64 / n as f64, _ => -2.0 + 4.0 * i as f64 / n as f64 }).collect();
+        let truth = if kind == "logistic-growth" { [rng.range(30, 60) as f64 / 10.0, rng.range(10, 20) as f64 / 10.0, rng.range(80, 120) as f64 / 10.0] }
+                    else { [rng.range(-15, 15) as f64 / 10.0, rng.range(2, 15) as f64 / 10.0, rng.range(-10, 10) as f64 / 10.0] };
         let ns = [0.0, 0.01, 0.2][rng.below(3) as usize];
-        let model = |th: &[f64], a: f64| -> f64 { match kind { "exponential" => th[0] * (th[1] * a).exp(), "logistic" => th[0] / (1.0 + (-(th[1] * a + th[2])).exp()), _ => th[0] * a } };
-        let p = match kind { "exponential" => 2, "logistic" => 3, _ => 1 };
+        // "logistic-growth": L e^z / (1 + e^z), z = k (x - x0), written so that an overshooting trial step gives inf / inf
+        let model = |th: &[f64], a: f64| -> f64 { match kind { "exponential" => th[0] * (th[1] * a).exp(), "logistic" => th[0] / (1.0 + (-(th[1] * a + th[2])).exp()),
+            "logistic-growth" => { let ez = ((a - th[2]) * th[1]).exp(); th[0] * ez / (ez + 1.0) }, _ => th[0] * a } };
+        let p = match kind { "exponential" => 2, "logistic" | "logistic-growth" => 3, _ => 1 };
         let y: Vec<f64> = x.iter().map(|a| model(&truth, *a) + ns * noise(&mut rng)).collect();
         // poor starts: perturbed truth, or a fixed far-off point (wrong sign of the rate, wrong scale) that forces rejected steps
-        let start: Vec<f64> = match rng.below(4) {
+        let start: Vec<f64> = if kind == "logistic-growth" {
+            // tiny amplitude and flat slope: the first weakly damped steps overshoot
+            vec![[0.01, 0.05, 0.1][rng.below(3) as usize], [0.1, 0.05, 0.2][rng.below(3) as usize], rng.range(2, 9) as f64]
+        } else { match rng.below(4) {
             0 => match kind { "exponential" => vec![5.0, -1.0], "logistic" => vec![1.0, 0.5, 0.0], _ => vec![40.0] },
             1 => match kind { "exponential" => vec![0.1, 3.0], "logistic" => vec![10.0, -2.0, 3.0], _ => vec![-7.0] },
             k => (0..p).map(|i| truth[i] + [1.5, -0.9, 2.0][i] * if k == 2 { 1.0 } else { 0.3 }).collect(),
-        };
+        } };
+        let budget = if kind == "logistic-growth" { [1usize, 2, 5, 100][rng.below(4) as usize] } else { 100 };
         // the line fit is compared with the exact least-squares slope: run it with tight stopping tolerances
         // (the default 1e-6 legitimately stops about 2^-19 away)
         let lm = if kind == "linear-short-window" { LM::new(1e-13, 1e-13, 1e-2) } else { LM::default() };
         let g = guard(|| lm.optimize(|pr: &[Var], d: &[&[f64]]| {
             let a = d[0][0];
-            match kind { "exponential" => (pr[1] * a).exp() * pr[0], "logistic" => pr[0] / ((-(pr[1] * a + pr[2])).exp() + 1.0), _ => pr[0] * a }
-        }, &start, &[&x, &y], 100));
+            match kind { "exponential" => (pr[1] * a).exp() * pr[0], "logistic" => pr[0] / ((-(pr[1] * a + pr[2])).exp() + 1.0),
+                         "logistic-growth" => { let ez = ((pr[2] * -1.0 + a) * pr[1]).exp(); pr[0] * ez / (ez + 1.0) }, _ => pr[0] * a }
+        }, &start, &[&x, &y], budget));
         let rss = |th: &[f64]| x.iter().zip(&y).map(|(a, b)| (b - model(th, *a)).powi(2)).sum::<f64>();
         match g {
             Some((th, cv)) => {
                 let (r0, r1) = (rss(&start), rss(&th));
+                let r1 = if r1.is_nan() { f64::INFINITY } else { r1 };
                 let ratio_log2 = if r1 <= r0 { -1 } else { ((r1 - r0) / r0.max(1e-300)).log2().ceil() as i64 };
                 // linear one-parameter model: the least-squares slope is sum(xy)/sum(xx)
                 let ls_dev_log2 = if kind == "linear-short-window" { let s = x.iter().zip(&y).map(|(a, b)| a * b).sum::<f64>() / x.iter().map(|a| a * a).sum::<f64>();
                     let d = (th[0] - s).abs() / s.abs().max(1.0); if d == 0.0 { -1074 } else { d.log2().ceil() as i64 } } else { -1074 };
                 // covariance at the RETURNED point: (J^T J) C = s^2 I with J and s^2 = rss / (n - p) evaluated there; residual in
                 // units of eps (||J^T J|| ||C|| + s^2), the backward-error scale of an inverse (as for C01)
-                let cov_resid: i64 = if cv.nrows == p && cv.ncols == p && n > p && th.iter().all(|v| v.is_finite()) {
+                // (not judged for "logistic-growth": with e^z beyond 1e154 the reverse-mode derivative of e^z / (e^z + 1) is itself
+                // wrong - (e^z + 1)^2 overflows -, so the Jacobian the optimizer sees is not the model's)
+                let cov_resid: i64 = if kind == "logistic-growth" { 0 } else if cv.nrows == p && cv.ncols == p && n > p && th.iter().all(|v| v.is_finite()) {
                     let jac = |a: f64| -> Vec<f64> { match kind {
                         "exponential" => vec![(th[1] * a).exp(), th[0] * a * (th[1] * a).exp()],
                         "logistic" => { let sg = 1.0 / (1.0 + (-(th[1] * a + th[2])).exp()); vec![sg, th[0] * sg * (1.0 - sg) * a, th[0] * sg * (1.0 - sg)] }
+                        "logistic-growth" => { let sg = 1.0 / (1.0 + (-((a - th[2]) * th[1])).exp()); vec![sg, th[0] * sg * (1.0 - sg) * (a - th[2]), -th[0] * sg * (1.0 - sg) * th[1]] }
                         _ => vec![a] } };
                     let mut jtj = vec![0.0; p * p];
                     for a in x.iter() { let j = jac(*a); for u in 0..p { for w in 0..p { jtj[u * p + w] += j[u] * j[w]; } } }
                     let s2 = r1 / (n - p) as f64;
+                    // a direction without information (saturated logistic: a column of J that is zero to working precision) makes
+                    // J^T J singular and the covariance undefined: not judged
+                    let dmax = (0..p).map(|u| jtj[u * p + u]).fold(0.0f64, f64::max);
+                    let dmin = (0..p).map(|u| jtj[u * p + u]).fold(f64::INFINITY, f64::min);
+                    if !(dmin > 1e-10 * dmax) { 0 } else {
                     let (mut rmax, mut na, mut nc) = (0.0f64, 0.0f64, 0.0f64);
                     for u in 0..p { for w in 0..p {
                         let mut acc = 0.0; for k in 0..p { acc += jtj[u * p + k] * cv[[k, w]]; }
@@ -158,10 +184,10 @@ pub fn record(seed: u64, nev: usize, out: &str) {
                     let den = f64::EPSILON * (p as f64 * na * nc + s2) + 4.0 * n as f64 * (f64::EPSILON * ymax).powi(2) / (n - p) as f64
                         // each residual y - f carries an absolute error eps |y|: rss is known to 2 sqrt(n rss) eps |y|
                         + 4.0 * f64::EPSILON * ymax * (n as f64 * r1).sqrt() / (n - p) as f64;
-                    if den == 0.0 { if rmax == 0.0 { 0 } else { 1 << 30 } } else { (rmax / den).ceil().min(1e9) as i64 }
+                    if den == 0.0 { if rmax == 0.0 { 0 } else { 1 << 30 } } else { (rmax / den).ceil().min(1e9) as i64 } }
                 } else { -1 };
                 t.emit(json!({"kind": kind, "n": n, "p": p, "out": "ok", "finite": th.iter().all(|v| v.is_finite()), "increase_log2": ratio_log2, "rss_not_increased": r1 <= r0 * (1.0 + 1e-12),
-                              "cov_shape_ok": cv.nrows == p && cv.ncols == p, "ls_dev_log2": ls_dev_log2, "cov_resid": cov_resid, "noise": ns}));
+                              "cov_shape_ok": cv.nrows == p && cv.ncols == p, "ls_dev_log2": ls_dev_log2, "cov_resid": cov_resid, "noise": ns, "budget": budget, "cov_finite": cv.data.iter().all(|t| t.is_finite()), "start": fjs(&start), "theta": fjs(&th)}));
             }
             None => t.emit(json!({"kind": kind, "n": n, "p": p, "out": "panic", "finite": false, "increase_log2": 0, "rss_not_increased": false, "cov_shape_ok": false, "ls_dev_log2": 0, "cov_resid": -1, "noise": ns})),
         }
